@@ -91,10 +91,10 @@ def spec_sep(name, b, s):
         e = np.maximum(b, s)
     elif name == "color_dodge":
         e = s_color_dodge(b, s)
-        tol = tol + EPS / np.maximum(1 - s, 1e-300)
+        tol = tol + np.where(s < 1, EPS / np.maximum(1 - s, 1e-300), 0.0)
     elif name == "color_burn":
         e = s_color_burn(b, s)
-        tol = tol + EPS / np.maximum(s, 1e-300)
+        tol = tol + np.where(s > 0, EPS / np.maximum(s, 1e-300), 0.0)
     elif name == "linear_dodge":
         e = np.minimum(one, b + s)
     elif name == "linear_burn":
@@ -106,7 +106,7 @@ def spec_sep(name, b, s):
     elif name == "vivid_light":
         e = np.where(s <= 0.5, s_color_burn(b, 2 * s), s_color_dodge(b, 2 * s - 1))
         d = np.where(s <= 0.5, 2 * s, 2 - 2 * s)
-        tol = tol + EPS / np.maximum(d, 1e-300)
+        tol = tol + np.where(d > 0, EPS / np.maximum(d, 1e-300), 0.0)
     elif name == "linear_light":
         e = np.clip(b + 2 * s - 1, 0, 1)
     elif name == "pin_light":
@@ -116,7 +116,7 @@ def spec_sep(name, b, s):
         dem = np.abs(b + s - 1) >= 2e-6
     elif name == "divide":
         e = np.where(s == 0, np.where(b == 0, 0.0, 1.0), np.minimum(1.0, _sdiv(b, s)))
-        tol = tol + EPS / np.maximum(s, 1e-300)
+        tol = tol + np.where(s > 0, EPS / np.maximum(s, 1e-300), 0.0)
         dem = ~((s == 0) & (b > 0) & (b < 1e-8))
     elif name == "difference":
         e = np.abs(b - s)
@@ -204,17 +204,39 @@ def fl(a):
     return [float(v) for v in np.asarray(a).ravel()]
 
 
+class Touched:
+    """falsy record of an argument modification: which argument, where, the pixel before the call"""
+
+    def __init__(self, which, idx, cb, cs):
+        self.which, self.idx, self.cb, self.cs = which, idx, cb, cs
+
+    def __bool__(self):
+        return False
+
+
 def call(f, Cb, Cs):
-    """run the implementation; -> (result | None, exception | None, inputs untouched?)"""
-    b0, s0 = Cb.tobytes(), Cs.tobytes()
+    """run the implementation; -> (result | None, exception | None, True if the arguments are byte-identical
+    afterwards else a Touched record)"""
+    b0, s0 = Cb.copy(), Cs.copy()
     try:
         with np.errstate(all="ignore"):
             r = f(Cb, Cs)
         exc = None
     except Exception as e:  # noqa
         r, exc = None, e
-    pure = (Cb.tobytes() == b0) and (Cs.tobytes() == s0)
+    pure = True
+    if Cb.tobytes() != b0.tobytes() or Cs.tobytes() != s0.tobytes():
+        which = "Cb" if Cb.tobytes() != b0.tobytes() else "Cs"
+        a, a0 = (Cb, b0) if which == "Cb" else (Cs, s0)
+        d = np.argwhere(a.view(np.uint32) != a0.view(np.uint32)) if a.dtype == np.float32 else np.argwhere(a != a0)
+        i = tuple(int(t) for t in d[0][:2])
+        pure = Touched(which, i, fl(b0[i]), fl(s0[i]))
     return r, exc, pure
+
+
+def add_impure(F, ctx, pure):
+    F.add("impure", dict(ctx, Cb=pure.cb if len(pure.cb) > 1 else pure.cb[0], Cs=pure.cs if len(pure.cs) > 1 else pure.cs[0]),
+          "argument %s was modified in place" % pure.which, "arguments untouched")
 
 
 def first_idx(mask, limit=MAXF):
@@ -232,7 +254,7 @@ def oracle_sep(F, name, Cb, Cs, stream):
         F.add("raises", dict(ctx, Cb=fl(Cb)[:4], Cs=fl(Cs)[:4], shape=list(Cb.shape)), repr(exc), "a value")
         return None
     if not pure:
-        F.add("impure", dict(ctx, Cb=fl(Cb)[:4], Cs=fl(Cs)[:4], shape=list(Cb.shape)), "an argument array was modified", "arguments untouched")
+        add_impure(F, ctx, pure)
     r = np.asarray(r)
     if r.shape != Cb.shape:
         F.add("shape", dict(ctx, shape=list(Cb.shape)), list(r.shape), list(Cb.shape))
@@ -301,7 +323,7 @@ def oracle_rgb(F, name, Cb, Cs, stream):
         F.add("raises", dict(ctx, Cb=fl(Cb)[:3], Cs=fl(Cs)[:3], shape=list(Cb.shape)), repr(exc), "a value")
         return None
     if not pure:
-        F.add("impure", dict(ctx, Cb=fl(Cb)[:3], Cs=fl(Cs)[:3], shape=list(Cb.shape)), "an argument array was modified", "arguments untouched")
+        add_impure(F, ctx, pure)
     r = np.asarray(r)
     if r.shape != Cb.shape:
         F.add("shape", dict(ctx, shape=list(Cb.shape)), list(r.shape), list(Cb.shape))
@@ -341,7 +363,7 @@ def oracle_cmyk(F, name, Cb, Cs, stream):
         F.add("raises", dict(ctx, Cb=fl(Cb)[:4], Cs=fl(Cs)[:4], shape=list(Cb.shape)), repr(exc), "a value")
         return None
     if not pure:
-        F.add("impure", dict(ctx, Cb=fl(Cb)[:4], Cs=fl(Cs)[:4], shape=list(Cb.shape)), "an argument array was modified", "arguments untouched")
+        add_impure(F, ctx, pure)
     r = np.asarray(r)
     if r.shape != Cb.shape:
         F.add("shape", dict(ctx, shape=list(Cb.shape)), list(r.shape), list(Cb.shape))
@@ -469,6 +491,13 @@ def specials():
         if c < 1:
             out.append(na(F32(c), F32(1)))
     out.append(F32(1) - F32(1e-6))
+    # neighbourhoods of the thresholds at every scale (a moved threshold shows only between old and new position)
+    for c in (0.5, 0.25, 0.0, 1.0):
+        for k in range(2, 8):
+            for sg in (-1, 1):
+                x = c + sg * 10.0 ** -k
+                if 0 <= x <= 1:
+                    out.append(F32(x))
     return sorted(set(float(x) for x in out))
 
 
@@ -484,8 +513,11 @@ def rand_unit(rng, n):
         elif t < 0.9:
             c = rng.choice([0.5, 0.25, 1.0, 0.0])
             x = F32(c)
-            for _ in range(rng.randint(0, 3)):
-                x = np.nextafter(x, F32(rng.choice([0, 1])))
+            if rng.random() < 0.5:
+                for _ in range(rng.randint(0, 3)):
+                    x = np.nextafter(x, F32(rng.choice([0, 1])))
+            else:
+                x = F32(c + rng.choice([-1, 1]) * rng.random() * 10.0 ** -rng.randint(1, 7))
             a[i] = min(max(x, F32(0)), F32(1))
         else:
             a[i] = F32(rng.random() * 10.0 ** (-rng.randint(1, 12)))
@@ -520,6 +552,14 @@ def run():
                "plus random triples/quadruples incl. grey, two-equal-channel and K in {0,1} colours; a 1-channel probe; "
                "non-trivial = input pair with both values strictly inside (0,1)")
     F = Fails(ck)
+    import time as _t
+    phases, t_last = {}, [_t.time()]
+
+    def mark(name):
+        phases[name] = round(_t.time() - t_last[0], 1)
+        t_last[0] = _t.time()
+
+    ck.dist["phase_seconds"] = phases
     ok = ck.coq_build(["theories/Blend/Corr.v", "theories/Properties/C12.v"])
     if ok:
         ck.collect_theorems("C12.v")
@@ -538,6 +578,7 @@ def run():
         rn.append(((a, b), [q.numerator, q.denominator]))
     ck.correspond("rn32", "rn32_nd", IMPORTS, rn, lambda d: "(%d,%d)" % d)
 
+    mark("coq build + theorems + grid/rn32 generators")
     # ---------------------------------------------------------------- table consistency (descriptor keys -> same functions)
     table_check(F)
 
@@ -562,6 +603,7 @@ def run():
     for i in bad[:3]:
         (k, row), y = row_cases[i]
         ck.notes.append("model/impl differ on grid row: mode %s Cb=%d/255 (first outputs %r)" % (SEP[k], row, list(y[:4])))
+    mark("separable grid")
     ck.sample({"stream": "sep_grid_rows", "mode": SEP[11], "Cb": "float32(100)/float32(255)", "Cs": "g[0..255]"})
 
     # ---------------------------------------------------------------- separable: special and random float32 points
@@ -587,7 +629,9 @@ def run():
         if r is None:
             continue
         Y = y24(r).ravel()
-        for t in range(Cb.size):
+        nsp = len(A)
+        keep = range(Cb.size) if thorough else sorted(ck.rng.sample(range(nsp), min(nsp, 900))) + list(range(nsp, Cb.size))
+        for t in keep:
             pt_cases.append((k, float(Cb[0, t, 0]), float(Cs[0, t, 0]), int(Y[t])))
             if 0 < Cb[0, t, 0] < 1 and 0 < Cs[0, t, 0] < 1:
                 ck.nontriv(("p", k, float(Cb[0, t, 0]), float(Cs[0, t, 0])))
@@ -598,6 +642,7 @@ def run():
         ck.notes.append("model/impl differ: %s(Cb=%r, Cs=%r): impl*2^24=%d" % (SEP[k], cb, cs, y))
     ck.sample({"stream": "sep_points", "case": {"mode": SEP[pt_cases[len(pt_cases) // 2][0]], "Cb": pt_cases[len(pt_cases) // 2][1], "Cs": pt_cases[len(pt_cases) // 2][2]}})
 
+    mark("separable points")
     # big random arrays, oracle only
     nbig = 2000000 if thorough else 300000
     R = np_rng(ck, 1)
@@ -622,10 +667,13 @@ def run():
             Cs = R.random(shape, dtype=F32)
             oracle_sep(F, name, Cb, Cs, "shapes")
 
+    mark("separable bulk oracle + identities + shapes")
     # ---------------------------------------------------------------- non-separable: RGB
     rgb_run(ck, F, thorough, R)
+    mark("non-separable RGB")
     # ---------------------------------------------------------------- non-separable: CMYK
     cmyk_run(ck, F, thorough, R)
+    mark("non-separable CMYK")
     # ---------------------------------------------------------------- 1-channel probe (totality)
     for name in NONSEP:
         Cb = np.array([[[0.3]]], dtype=F32)
